@@ -38,6 +38,7 @@ MUTANTS = {
         ("minor-rescale-dropped", "aldy/genotype.py", "            * ((m.major_solution.cn_solution.score + SLACK) / (min_cn_score + SLACK)),", "            * 1,"),
     ],
     "C17": [
+        ("patch:own-c17-dump-aliasing",),
         ("dump-without-indel-sites", "aldy/sam.py", "                    self._indel_sites,  # TODO: remove", "                    {k: [0, 0] for k in self._indel_sites},"),
         ("dump-without-phases", "aldy/sam.py", "                    [v for v in self.phases.values() if len(v) > 1],", "                    [],"),
         ("dump-without-neutral-depth", "aldy/sam.py", "                    self._dump_cn,\n                    {p: Counter(q) for p, q in norm.items()},", "                    {k: v // 2 for k, v in self._dump_cn.items()},\n                    {p: Counter(q) for p, q in norm.items()},"),
